@@ -47,7 +47,7 @@ MIN_HITS = {
         'mon:mime': 3000, 'mon:domain': 4000, 'mon:cluster': 2000, 'mon:geom': 2000, 'mon:algo': 30, 'algo-all-clients-empty': 12,
         'fully-padded-batch': 150, 'arbitrary-mask': 100, 'garbage-padding': 200, 'empty-client': 30, 'empty-domain': 400,
         'via-model': 300, 'reg:with-centre': 300, 'reg:none': 150, 'geometry:hand-built': 100, 'algo:mime': 2,
-        'algo:mime_lite': 2, 'algo:agnostic_fed_avg': 2, 'algo:hyp_cluster': 2, 'mon:eager': 1000, 'hit:eager-repeat-avgloss': 300, 'hit:cluster-losses-on-pmap': 150, 'hit:big-batch-domain-pass': 30,
+        'algo:mime_lite': 2, 'algo:agnostic_fed_avg': 2, 'algo:hyp_cluster': 2, 'mon:eager': 1000, 'hit:eager-repeat-avgloss': 300, 'hit:cluster-losses-on-pmap': 150, 'hit:big-batch-domain-pass': 30, 'hit:loss-raised-mid-evaluation': 100,
     },
     'thorough': {
         'mon:grad': 15000, 'mon:avgloss': 25000, 'mon:regonce': 25000, 'mon:empty': 15000, 'mon:evaluator': 20000,
@@ -775,6 +775,32 @@ def dataset_case(ctx, mods, cfgs, MK, i, rng):
               ctx.check(num == sizes[c], 'eager/mime-num', f'Mime pass without jit counted {num} examples, client has {sizes[c]}', w_)
               ctx.check(tree_within(gsum, exps[c]['mime_sum'], exps[c]['mime_sum_scale']), 'eager/mime-grads-sum',
                         'Mime pass without jit on already-used batches: sum of grads*num differs from the closed form', w_)
+      # a loss that raises while one of the held batches is processed (here: on the last batch of each client) must not leave
+      # that batch altered: the next ordinary evaluation of the same batch objects gives the same value as before
+      class _LossFailure(Exception):
+        pass
+
+      for c in range(n_clients):
+        if not held[c]:
+          continue
+        last_rows = int(np.asarray(held[c][-1][MK]).shape[0])
+
+        def bad_loss(p_, b_, r_, last_rows=last_rows):
+          if int(b_[MK].shape[0]) == last_rows:
+            raise _LossFailure('user loss failed on this batch')
+          return cfg.loss(p_, b_, r_)
+
+        try:
+          models.evaluate_average_loss(jparams, held[c], keys[c], bad_loss, cfg.reg)
+        except _LossFailure:
+          ctx.count('hit:loss-raised-mid-evaluation')
+        r = ctx.call('evaluate_average_loss[after-failed-call]', models.evaluate_average_loss, jparams, held[c], keys[c], cfg.loss, cfg.reg,
+                     witness={**gw, 'client': c})
+        if r.ok:
+          v = float(r.value)
+          ctx.check(within(v, exps[c]['avg_loss'], exps[c]['avg_loss_scale']), 'eager/avgloss-after-failed-call',
+                    'evaluate_average_loss on batches that an earlier, FAILED call (loss raised) had been given differs from mean loss + '
+                    'regularizer', {**gw, 'client': c, 'n': sizes[c], 'observed': v, 'expected': exps[c]['avg_loss']})
       after = [[(sorted(b), digest(*[np.asarray(b[k]) for k in sorted(b)])) for b in bts] for bts in held]
       ctx.check(before == after, 'eager/batches-mutated',
                 'evaluating padded batches (no jit) changed the caller\'s batch dicts (keys or contents)',
